@@ -75,11 +75,11 @@ func schemaBuild09(r *Run, rng *Rng) {
 	}
 	schema := schemaJSON09(kinds, nsd)
 	ns := rng.Pick(c09Namespaces)
-	variant := rng.Pick([]string{"top", "base-after", "base-before", "two-builds", "two-builds"})
+	variant := rng.Pick([]string{"top", "base-after", "base-before", "two-builds", "two-builds", "two-schemas", "two-schemas", "two-schemas"})
 	customRes := custom09(kc, "g1") + "---\n" + custom09(kn, "d1")
 	files := fileSet{}
 	switch variant {
-	case "top", "two-builds":
+	case "top", "two-builds", "two-schemas":
 		files["/t/kustomization.yaml"] = "resources:\n- custom.yaml\n- cm.yaml\nopenapi:\n  path: schema.json\nnamespace: " + ns + "\n"
 		files["/t/schema.json"] = schema
 		files["/t/custom.yaml"] = customRes
@@ -111,6 +111,26 @@ func schemaBuild09(r *Run, rng *Rng) {
 		pre := fileSet{"/p/kustomization.yaml": "resources:\n- custom.yaml\nnamespace: " + rng.Pick(c09Namespaces) + "\n", "/p/custom.yaml": customRes}
 		cls, _, _ := runFiles09(pre, "/p")
 		r.Count("schema_prebuild", cls)
+	}
+	if variant == "two-schemas" {
+		// the same process first builds with ANOTHER custom schema: the same kinds with the scopes swapped, or a schema
+		// that knows only one of them / only other kinds. Its parsed definitions must not survive into the second build.
+		var other string
+		switch rng.Intn(4) {
+		case 0, 1:
+			other = schemaJSON09(kinds, []bool{!nsd[0], !nsd[1]})
+		case 2:
+			other = schemaJSON09([]string{kc, "Other" + suffix}, []bool{!nsd[0], false})
+		default:
+			other = schemaJSON09([]string{kn, "Other" + suffix}, []bool{!nsd[1], true})
+		}
+		pre := fileSet{"/p/kustomization.yaml": "resources:\n- custom.yaml\nopenapi:\n  path: schema.json\n", "/p/custom.yaml": customRes, "/p/schema.json": other}
+		if rng.Chance(60) {
+			pre["/p/kustomization.yaml"] += "namespace: " + rng.Pick(c09Namespaces) + "\n"
+		}
+		cls, _, _ := runFiles09(pre, "/p")
+		r.Count("schema_prebuild", "other-schema:"+cls)
+		files["/pre/kustomization.yaml"], files["/pre/custom.yaml"], files["/pre/schema.json"] = pre["/p/kustomization.yaml"], pre["/p/custom.yaml"], pre["/p/schema.json"] // for the replay record
 	}
 	cls, msg, outs := runFiles09(files, "/t")
 	r.Count("schema_build", variant+":"+cls)
@@ -232,4 +252,397 @@ func patchBuild09(r *Run, rng *Rng) {
 				Replay: map[string]interface{}{"patch_build": root, "files": files}})
 		}
 	}
+}
+
+// ---------- file-set cases with explicit expectations (replayable) ----------
+//
+//   clusterPatchBuild09 - strategic-merge patches (patches: with / without target selector, patchesStrategicMerge
+//                   inline / file) whose patch document carries metadata.namespace, addressed to CLUSTER-SCOPED
+//                   resources (ClusterRole, PersistentVolume, StorageClass, PriorityClass, ClusterRoleBinding,
+//                   Namespace, CustomResourceDefinition) and to a namespaced control, in the layer of the namespace
+//                   directive, above it, or in a tree without any directive.
+//                   Law cluster_untouched: a cluster-scoped resource that had no metadata.namespace has none in the
+//                   output; namespaced resources end in the outermost directive (or keep theirs without one).
+//   annoPatchBuild09 - an inner layer whose namespace directive (optionally namePrefix / nameSuffix) moves a
+//                   ServiceAccount, a RoleBinding / ClusterRoleBinding subject designating it (namespace absent or the
+//                   account's original one), and an OUTER layer without directive that applies a JSON6902 patch
+//                   (patches: / patchesJson6902:) adding / replacing / removing the WHOLE /metadata/annotations map
+//                   (or single keys) of the account, of the binding, or a strategic-merge patch with annotations.
+//                   Law subjects: the subject carries the account's output name and namespace.
+
+type c09Expect struct {
+	Law     string `json:"law"`
+	Class   string `json:"class"`
+	Kind    string `json:"kind"`
+	Name    string `json:"name"` // original name; the output document is the one of that kind whose name contains it
+	Present bool   `json:"present,omitempty"`
+	Want    string `json:"want,omitempty"`
+	Subject int    `json:"subject,omitempty"` // law subjects: index of the subject
+	Acct    string `json:"acct,omitempty"`    // law subjects: original name of the ServiceAccount
+}
+
+type c09FileCase struct {
+	Root   string      `json:"root"`
+	Files  fileSet     `json:"files"`
+	Expect []c09Expect `json:"expect"`
+	Desc   string      `json:"desc"`
+}
+
+func findOut09(outs []*kyaml.RNode, kind, name string) *kyaml.Node {
+	var hit *kyaml.Node
+	for _, o := range outs {
+		k, _ := strAt(o.YNode(), "kind")
+		n, _ := strAt(o.YNode(), "metadata", "name")
+		// (the namespace directive renames a Namespace object: found by kind, there is at most one)
+		if k == kind && (strings.Contains(n, name) || kind == "Namespace") {
+			if hit != nil {
+				return nil // ambiguous
+			}
+			hit = o.YNode()
+		}
+	}
+	return hit
+}
+
+// evalFileCase09 runs the build and evaluates the expectations; it returns the violations as (law, class, detail).
+func evalFileCase09(c *c09FileCase) (cls, msg string, outs []*kyaml.RNode, bad [][3]string) {
+	cls, msg, outs = runFiles09(c.Files, c.Root)
+	if cls == ClsPanic {
+		bad = append(bad, [3]string{"no_panic", "C09/panic", msg})
+	}
+	if cls != ClsOk {
+		return
+	}
+	for _, e := range c.Expect {
+		o := findOut09(outs, e.Kind, e.Name)
+		if o == nil {
+			bad = append(bad, [3]string{"resource_kept", "C09/resource-lost", fmt.Sprintf("%s %s is missing from (or ambiguous in) the output", e.Kind, e.Name)})
+			continue
+		}
+		switch e.Law {
+		case "cluster_untouched", "outermost_wins":
+			got, has := strAt(o, "metadata", "namespace")
+			if has != e.Present || (has && got != e.Want) {
+				bad = append(bad, [3]string{e.Law, e.Class, fmt.Sprintf("%s %s: metadata.namespace %q (present=%v), expected %q (present=%v); %s", e.Kind, e.Name, got, has, e.Want, e.Present, c.Desc)})
+			}
+		case "subjects":
+			a := findOut09(outs, "ServiceAccount", e.Acct)
+			subs := c09getAt(o, "subjects")
+			if a == nil || subs == nil || subs.Kind != kyaml.SequenceNode || e.Subject >= len(subs.Content) {
+				bad = append(bad, [3]string{"subjects", e.Class, fmt.Sprintf("%s %s: subject %d or account %s missing from the output; %s", e.Kind, e.Name, e.Subject, e.Acct, c.Desc)})
+				continue
+			}
+			an, _ := strAt(a, "metadata", "name")
+			ans, _ := strAt(a, "metadata", "namespace")
+			sn, _ := strAt(subs.Content[e.Subject], "name")
+			sns, _ := strAt(subs.Content[e.Subject], "namespace")
+			if sn != an || sns != ans {
+				bad = append(bad, [3]string{"subjects", e.Class, fmt.Sprintf("%s %s subject %d is %s/%s, the account it designated is now %s/%s; %s", e.Kind, e.Name, e.Subject, sns, sn, ans, an, c.Desc)})
+			}
+		}
+	}
+	return
+}
+
+func c09getAt(n *kyaml.Node, path ...string) *kyaml.Node {
+	for _, p := range path {
+		if n == nil || n.Kind != kyaml.MappingNode {
+			return nil
+		}
+		var next *kyaml.Node
+		for i := 0; i+1 < len(n.Content); i += 2 {
+			if n.Content[i].Value == p {
+				next = n.Content[i+1]
+				break
+			}
+		}
+		n = next
+	}
+	return n
+}
+
+func runFileCase09(r *Run, family string, c *c09FileCase) {
+	cls, msg, _, bad := evalFileCase09(c)
+	r.Count(family, cls)
+	if cls != ClsOk {
+		r.Count(family+"_error", c08firstN(msg, 80))
+	}
+	for _, e := range c.Expect {
+		if cls == ClsOk {
+			r.Count("oracle", family+":"+e.Law)
+		}
+	}
+	for _, b := range bad {
+		r.Violation(OracleViolation{Law: b[0], Class: b[1], Detail: b[2], Replay: map[string]interface{}{"file_case": c}})
+	}
+	r.AddEval(family+"/"+c.Desc+"/"+c.Root+fmt.Sprint(len(c.Files)), cls == ClsOk)
+}
+
+var c09ClusterDocs = []struct{ av, kind, body string }{
+	{"rbac.authorization.k8s.io/v1", "ClusterRole", "rules:\n- apiGroups: [\"\"]\n  resources: [pods]\n  verbs: [get]\n"},
+	{"v1", "PersistentVolume", "spec:\n  capacity:\n    storage: 1Gi\n  accessModes: [ReadWriteOnce]\n  hostPath:\n    path: /tmp/x\n"},
+	{"storage.k8s.io/v1", "StorageClass", "provisioner: example.com/p\n"},
+	{"scheduling.k8s.io/v1", "PriorityClass", "value: 10\n"},
+	{"rbac.authorization.k8s.io/v1", "ClusterRoleBinding", "roleRef:\n  apiGroup: rbac.authorization.k8s.io\n  kind: ClusterRole\n  name: cr\nsubjects:\n- kind: Group\n  name: g\n  apiGroup: rbac.authorization.k8s.io\n"},
+	{"v1", "Namespace", ""},
+	{"apiextensions.k8s.io/v1", "CustomResourceDefinition", "spec:\n  group: example.com\n  scope: Namespaced\n  names:\n    kind: Foo\n    plural: foos\n  versions:\n  - name: v1\n    served: true\n    storage: true\n"},
+}
+
+func indent09(s, pre string) string {
+	if s == "" {
+		return ""
+	}
+	lines := strings.Split(strings.TrimSuffix(s, "\n"), "\n")
+	return pre + strings.Join(lines, "\n"+pre) + "\n"
+}
+
+func genClusterPatchCase09(rng *Rng) *c09FileCase {
+	c := &c09FileCase{Files: fileSet{}}
+	n0 := ""
+	if rng.Chance(75) {
+		n0 = rng.Pick(c09Namespaces)
+	}
+	nd := 1 + rng.Intn(2)
+	type doc struct{ av, kind, name string }
+	docs := []doc{}
+	res := ""
+	for i := 0; i < nd; i++ {
+		d := c09ClusterDocs[rng.Intn(len(c09ClusterDocs))]
+		name := fmt.Sprintf("c%d", i)
+		dup := false
+		for _, x := range docs {
+			dup = dup || x.kind == d.kind
+		}
+		if dup {
+			continue
+		}
+		docs = append(docs, doc{d.av, d.kind, name})
+		c.Files[fmt.Sprintf("/t/b/%s.yaml", name)] = fmt.Sprintf("apiVersion: %s\nkind: %s\nmetadata:\n  name: %s\n%s", d.av, d.kind, name, d.body)
+		res += fmt.Sprintf("- %s.yaml\n", name)
+	}
+	c.Files["/t/b/cm.yaml"] = "apiVersion: v1\nkind: ConfigMap\nmetadata:\n  name: cm\ndata:\n  k: v\n"
+	res += "- cm.yaml\n"
+	// patches
+	var pb strings.Builder
+	var legacy strings.Builder
+	descs := []string{}
+	targets := append([]doc{}, docs...)
+	if rng.Chance(40) {
+		targets = append(targets, doc{"v1", "ConfigMap", "cm"})
+	}
+	pfiles := fileSet{}
+	for i, d := range targets {
+		if i > 0 && rng.Chance(40) {
+			continue
+		}
+		pns := rng.Pick([]string{"prod", "prod", "elsewhere", n0, ""})
+		nsLine := ""
+		if pns != "" {
+			nsLine = "  namespace: " + pns + "\n"
+		}
+		text := fmt.Sprintf("apiVersion: %s\nkind: %s\nmetadata:\n  name: %s\n%s  labels:\n    patched: \"yes\"\n", d.av, d.kind, d.name, nsLine)
+		switch how := rng.Intn(4); how {
+		case 0, 1: // patches: inline
+			fmt.Fprintf(&pb, "- patch: |-\n%s", indent09(text, "    "))
+			withTarget := how == 1 || (pns != "" && d.kind == "ConfigMap")
+			if withTarget {
+				fmt.Fprintf(&pb, "  target:\n    kind: %s\n    name: %s\n", d.kind, d.name)
+			}
+			descs = append(descs, fmt.Sprintf("%s patches ns=%q target=%v", d.kind, pns, withTarget))
+		case 2: // patches: path
+			pf := fmt.Sprintf("p%d.yaml", i)
+			pfiles[pf] = text
+			fmt.Fprintf(&pb, "- path: %s\n  target:\n    kind: %s\n    name: %s\n", pf, d.kind, d.name)
+			descs = append(descs, fmt.Sprintf("%s patches-path ns=%q target=true", d.kind, pns))
+		default: // patchesStrategicMerge (id taken from the patch document)
+			if d.kind == "ConfigMap" && pns != "" && pns != n0 {
+				pns, text = "", strings.Replace(text, nsLine, "", 1)
+			}
+			fmt.Fprintf(&legacy, "- |-\n%s", indent09(text, "  "))
+			descs = append(descs, fmt.Sprintf("%s patchesStrategicMerge ns=%q", d.kind, pns))
+		}
+	}
+	ptxt := ""
+	if pb.Len() > 0 {
+		ptxt += "patches:\n" + pb.String()
+	}
+	if legacy.Len() > 0 {
+		ptxt += "patchesStrategicMerge:\n" + legacy.String()
+	}
+	base := "resources:\n" + res
+	want := n0
+	placement := rng.Intn(3)
+	if n0 == "" {
+		placement = rng.Intn(2) * 2 // 0 or 2
+	}
+	switch placement {
+	case 0: // directive and patches in the same layer
+		if n0 != "" {
+			base += "namespace: " + n0 + "\n"
+		}
+		base += ptxt
+		for f, t := range pfiles {
+			c.Files["/t/b/"+f] = t
+		}
+		c.Files["/t/b/kustomization.yaml"] = base
+		c.Root = "/t/b"
+	case 1: // directive below, patches above
+		base += "namespace: " + n0 + "\n"
+		c.Files["/t/b/kustomization.yaml"] = base
+		mid := "resources:\n- ../b\n" + ptxt
+		for f, t := range pfiles {
+			c.Files["/t/m/"+f] = t
+		}
+		c.Files["/t/m/kustomization.yaml"] = mid
+		c.Root = "/t/m"
+	default: // patches below, directive (if any) above
+		base += ptxt
+		for f, t := range pfiles {
+			c.Files["/t/b/"+f] = t
+		}
+		c.Files["/t/b/kustomization.yaml"] = base
+		mid := "resources:\n- ../b\n"
+		if n0 != "" {
+			mid += "namespace: " + n0 + "\n"
+		}
+		c.Files["/t/m/kustomization.yaml"] = mid
+		c.Root = "/t/m"
+	}
+	c.Desc = fmt.Sprintf("directive=%q placement=%d; %s", n0, placement, strings.Join(descs, " | "))
+	for _, d := range docs {
+		c.Expect = append(c.Expect, c09Expect{Law: "cluster_untouched", Class: "C09/cluster_untouched/after-patch", Kind: d.kind, Name: d.name, Present: false})
+	}
+	if want != "" {
+		c.Expect = append(c.Expect, c09Expect{Law: "outermost_wins", Class: "C09/moved/after-patch", Kind: "ConfigMap", Name: "cm", Present: true, Want: want})
+	}
+	return c
+}
+
+func genAnnoPatchCase09(rng *Rng) *c09FileCase {
+	c := &c09FileCase{Files: fileSet{}}
+	n0 := rng.Pick(c09Namespaces)
+	orig := rng.Pick([]string{"", "", "old"})
+	saAnn := rng.Chance(60)
+	sa := "apiVersion: v1\nkind: ServiceAccount\nmetadata:\n  name: sa1\n"
+	if orig != "" {
+		sa += "  namespace: " + orig + "\n"
+	}
+	if saAnn {
+		sa += "  annotations:\n    note: keep\n"
+	}
+	bk := rng.Pick([]string{"RoleBinding", "RoleBinding", "ClusterRoleBinding"})
+	rb := "apiVersion: rbac.authorization.k8s.io/v1\nkind: " + bk + "\nmetadata:\n  name: rb\n"
+	if orig != "" && bk == "RoleBinding" {
+		rb += "  namespace: " + orig + "\n"
+	}
+	rbAnn := rng.Chance(40)
+	if rbAnn {
+		rb += "  annotations:\n    note: keep\n"
+	}
+	rk := "Role"
+	if bk == "ClusterRoleBinding" {
+		rk = "ClusterRole"
+	}
+	rb += "roleRef:\n  apiGroup: rbac.authorization.k8s.io\n  kind: " + rk + "\n  name: r\nsubjects:\n- kind: ServiceAccount\n  name: sa1\n"
+	sns := "absent"
+	if orig != "" && rng.Chance(60) {
+		rb += "  namespace: " + orig + "\n"
+		sns = orig
+	}
+	if orig != "" && sns == "absent" && bk == "ClusterRoleBinding" {
+		// a subject without namespace in a cluster-wide binding designates no particular account of `old`: keep it designating
+		rb += "  namespace: " + orig + "\n"
+		sns = orig
+	}
+	c.Files["/t/b/sa.yaml"] = sa
+	c.Files["/t/b/rb.yaml"] = rb
+	inner := "resources:\n- sa.yaml\n- rb.yaml\nnamespace: " + n0 + "\n"
+	ren := ""
+	if rng.Chance(40) {
+		ren = rng.Pick([]string{"namePrefix: pre-\n", "nameSuffix: -suf\n"})
+		inner += ren
+	}
+	c.Files["/t/b/kustomization.yaml"] = inner
+	// the outer layer: no directive of its own, patches on the account and / or the binding
+	var pb, legacy strings.Builder
+	descs := []string{}
+	addPatch := func(kind, av, name string, has bool) {
+		ops := []string{"add-map", "add-key"}
+		if has {
+			ops = append(ops, "replace-map", "remove-map", "sm-annotations")
+		} else {
+			ops = append(ops, "sm-annotations")
+		}
+		op := rng.Pick(ops)
+		var text string
+		switch op {
+		case "add-map":
+			text = "- op: add\n  path: /metadata/annotations\n  value:\n    iam.example.com/role: reader\n"
+		case "add-key":
+			if !has {
+				text = "- op: add\n  path: /metadata/annotations\n  value: {}\n- op: add\n  path: /metadata/annotations/extra\n  value: x\n"
+			} else {
+				text = "- op: add\n  path: /metadata/annotations/extra\n  value: x\n"
+			}
+		case "replace-map":
+			text = "- op: replace\n  path: /metadata/annotations\n  value:\n    iam.example.com/role: reader\n"
+		case "remove-map":
+			text = "- op: remove\n  path: /metadata/annotations\n"
+		}
+		if op == "sm-annotations" {
+			sm := fmt.Sprintf("apiVersion: %s\nkind: %s\nmetadata:\n  name: %s\n  annotations:\n    iam.example.com/role: reader\n", av, kind, name)
+			fmt.Fprintf(&pb, "- patch: |-\n%s  target:\n    kind: %s\n    name: %s\n", indent09(sm, "    "), kind, name)
+		} else if rng.Chance(70) {
+			fmt.Fprintf(&pb, "- patch: |-\n%s  target:\n    kind: %s\n    name: %s\n", indent09(text, "    "), kind, name)
+			op += " via patches"
+		} else {
+			g, v := "", av
+			if i := strings.Index(av, "/"); i >= 0 {
+				g, v = av[:i], av[i+1:]
+			}
+			fmt.Fprintf(&legacy, "- target:\n    group: %q\n    version: %s\n    kind: %s\n    name: %s\n  patch: |-\n%s", g, v, kind, name, indent09(text, "    "))
+			op += " via patchesJson6902"
+		}
+		descs = append(descs, kind+" "+op)
+	}
+	// the outer layer addresses the resources by their current names
+	cur := func(n string) string {
+		switch ren {
+		case "namePrefix: pre-\n":
+			return "pre-" + n
+		case "nameSuffix: -suf\n":
+			return n + "-suf"
+		}
+		return n
+	}
+	which := rng.Intn(10)
+	if which < 8 {
+		addPatch("ServiceAccount", "v1", cur("sa1"), saAnn)
+	}
+	if which >= 6 {
+		addPatch(bk, "rbac.authorization.k8s.io/v1", cur("rb"), rbAnn)
+	}
+	outer := "resources:\n- ../b\n"
+	if pb.Len() > 0 {
+		outer += "patches:\n" + pb.String()
+	}
+	if legacy.Len() > 0 {
+		outer += "patchesJson6902:\n" + legacy.String()
+	}
+	c.Files["/t/m/kustomization.yaml"] = outer
+	c.Root = "/t/m"
+	if rng.Chance(25) { // one more plain layer, sometimes renaming again: the references have to survive that too
+		top := "resources:\n- ../m\n"
+		if rng.Chance(50) {
+			top += "namePrefix: top-\n"
+		}
+		c.Files["/t/top/kustomization.yaml"] = top
+		c.Root = "/t/top"
+	}
+	c.Desc = fmt.Sprintf("orig=%q subject-ns=%s %s rename=%q; %s", orig, sns, bk, strings.TrimSpace(ren), strings.Join(descs, " | "))
+	c.Expect = []c09Expect{
+		{Law: "outermost_wins", Class: "C09/moved/after-annotation-patch", Kind: "ServiceAccount", Name: "sa1", Present: true, Want: n0},
+		{Law: "subjects", Class: "C09/subjects/after-annotation-patch", Kind: bk, Name: "rb", Subject: 0, Acct: "sa1"},
+	}
+	return c
 }
